@@ -4,6 +4,7 @@
 // The oracle is the simulator's deadlock / permanent-livelock criterion (no timing assumption).
 #include "rt_common.h"
 #include "oneapi/tbb/parallel_for.h"
+#include "oneapi/tbb/task_group.h"
 #include "../../repo/src/tbb/concurrent_monitor.h"
 
 namespace {
@@ -48,7 +49,7 @@ void scen_monitor(hx::Desc& d) {
 }
 
 void scen_runtime(hx::Desc& d) {
-    int variant = (int)sim::draw(5, "variant");
+    int variant = (int)sim::draw(6, "variant");
     static const int ptsv[] = {0, 2, 10};
     int pts = sim::draw_of(ptsv, "points");
     switch (variant) {
@@ -84,6 +85,32 @@ void scen_runtime(hx::Desc& d) {
         for (int u = 0; u < users; ++u) fns.push_back([&] { for (int r = 0; r < 2; ++r) a.execute([&] { for (int j = 0; j < pts + 2; ++j) sim::upoint(); ++done; }); });
         hx::run_fibers(fns);
         SIM_CHECK(done == users * 2, "oracle:wait-incomplete", "execute() calls completed %d of %d functors", done, users * 2);
+        break;
+    }
+    case 5: {   // fully reserved arena (n,n): no workers, no mandatory concurrency. One occupant dispatches for a
+                // while and then stays put, the other occupants leave; the callers asleep in execute() are served only
+                // by the wake-ups that leaving threads and finished delegates pass along.
+        int n = (int)sim::draw_range(2, 3, "slots"), callers = (int)sim::draw_range(2, 4, "callers");
+        int leavers = (int)sim::draw_range(1, n - 1, "leavers"), delta = (int)sim::draw(40, "delta"), go_delay = (int)sim::draw(300, "go_delay");
+        d.add(hx::fmt("reserved arena(%d,%d): 1 dispatcher + %d parked (%d leave), %d callers, delta=%d go_delay=%d", n, n, n - 1, leavers, callers, delta, go_delay)); d.publish();
+        tbb::task_arena a(n, (unsigned)n); a.initialize();
+        tbb::task_group tg; tbb::task_handle hold = tg.defer([] {});
+        sim::event leave, go, all_returned; std::vector<sim::event> in((size_t)n);
+        bool fired = false; int returned = 0, ran = 0;
+        std::vector<int> ids;
+        for (int i = 0; i < n - 1; ++i) ids.push_back(sim::spawn([&, i] { a.execute([&, i] { in[(size_t)i].signal(); if (i < leavers) leave.wait(); else all_returned.wait(); }); }, "parked"));
+        ids.push_back(sim::spawn([&] { a.execute([&] { in[(size_t)n - 1].signal(); go.wait(); tg.wait(); all_returned.wait(); }); }, "dispatcher"));
+        for (auto& e : in) e.wait();
+        for (int c = 0; c < callers; ++c) ids.push_back(sim::spawn([&, c] {
+            for (int j = 0; j < c * 3; ++j) sim::upoint();
+            a.execute([&] { ++ran; if (!fired) { fired = true; leave.signal(); for (int j = 0; j < delta; ++j) sim::upoint(); tg.run(std::move(hold)); } for (int j = 0; j < pts; ++j) sim::upoint(); });
+            if (++returned == callers) all_returned.signal();
+        }, "caller"));
+        for (int j = 0; j < go_delay; ++j) sim::upoint();
+        go.signal();
+        for (int id : ids) sim::join(id);
+        tg.wait();
+        SIM_CHECK(ran == callers, "oracle:wait-incomplete", "execute() calls ran %d of %d functors", ran, callers);
         break;
     }
     case 3: {   // task_group whose last task finishes on another thread while the owner is about to sleep
